@@ -39,7 +39,7 @@ def seeded_table():
 def benign_table():
     base = os.path.join(V, "seeded_benign")
     res = {r["seed"]: r for r in json.load(open(os.path.join(base, "RESULTS.json")))} if os.path.exists(os.path.join(base, "RESULTS.json")) else {}
-    rows = ["| refactor | kind | change (function) | first run of the checks | now |", "|---|---|---|---|---|"]
+    rows = ["| refactor | round | kind | change (function) | first run of the checks | now |", "|---|---|---|---|---|---|"]
     for m in sorted(glob.glob(os.path.join(base, "*", "meta.json"))):
         sid = os.path.basename(os.path.dirname(m))
         d = json.load(open(m))
@@ -47,7 +47,7 @@ def benign_table():
         first = fr.get("outcome", "?") + (" (" + ", ".join(fr.get("by", [])) + ")" if fr.get("by") else "")
         al = res.get(sid, {}).get("alarms", {})
         now = ", ".join(f"{p} (exit {v['exit']})" for p, v in sorted(al.items())) or "silent"
-        rows.append(f"| {sid} | {d.get('refactor_kind', '')} | {str(d.get('title', ''))[:130].replace('|', '/')} (`{str(d.get('function', ''))[:50]}`) | {first} | {now} |")
+        rows.append(f"| {sid} | {d.get('round', 1)} | {d.get('refactor_kind', '')} | {str(d.get('title', ''))[:130].replace('|', '/')} (`{str(d.get('function', ''))[:50]}`) | {first} | {now} |")
     return "\n".join(rows)
 
 
